@@ -137,6 +137,14 @@ func suiteC03(c *ctx) {
 				os.WriteFile(filepath.Join(sandbox, "store.user"), recOf(), 0600)
 				d := cfg.dir(base)
 				h := &hist{c: c, cfg: cfg, base: base, d: d, shadow: map[string]*srec{}, noSpec: true, users: []string{name}}
+				// the same Dir object has already served the valid users (whatever it remembers about
+				// them must not make an aliasing name usable afterwards)
+				if idx%2 == 0 {
+					d.Exists("alice")
+					d.Authenticate("alice", string(pw))
+					d.Authenticate("root", string(pw))
+					d.List()
+				}
 				valid := store_validName(name)
 				before := treeSnap(sandbox)
 				failed := true
